@@ -376,8 +376,10 @@ def run_faults(desc):
         if expect_fail is True and not failed:
             viols.append({"clause": "fault-not-reported", "signature": "fault-not-reported:" + fault,
                           "detail": f"`{' '.join(args)}` exit 0", "case": case})
-        if expect_fail is False and failed:
-            viols.append({"clause": "good-run-failed", "signature": "good-run-failed", "detail": r["stderr"][:200], "case": case})
+        if expect_fail is False:
+            # a generated ledger the tool refuses with a clean error is an outcome C15 allows (whether the refusal is
+            # right is C05's business); it only has to satisfy the failure clauses below
+            cnt["ok_runs_refused_with_a_clean_error" if failed else "ok_runs_succeeded"] += 1
         if failed:
             cnt["failing_runs_observed"] += 1
             if not r["stderr"].strip():
@@ -479,7 +481,7 @@ def replay(case):
     return [], {"note": "fault cases: re-run the shard"}
 
 
-THRESHOLDS = {"library_calls": 8000, "hostile_moderate_ledgers": 2000, "hostile_extreme_ledgers": 2000, "validator_cases": 2000,
+THRESHOLDS = {"ok_runs_succeeded": 10, "library_calls": 8000, "hostile_moderate_ledgers": 2000, "hostile_extreme_ledgers": 2000, "validator_cases": 2000,
               "validator_valid_inputs": 100, "validator_reason_quantity<=0": 200, "validator_reason_ratio<=0": 100,
               "validator_reason_fee<0": 100, "validator_reason_price/total<0": 200, "process_runs": 100,
               "failing_runs_observed": 50, "default_pdf_overwrite_refused": 3,
